@@ -23,6 +23,7 @@ export class GenCtx {
     this.exprCtx = opts.exprCtx || {}
     this.noCall = opts.noCall || false
     this.listKinds = opts.listKinds
+    this.safeLists = opts.safeLists || false
   }
   visibleNames() {
     return [...new Set([...this.dataNames, ...this.scopes])]
@@ -66,6 +67,8 @@ export class GenCtx {
     if (r < 16) return M.ev(X.arr([{ k: 'v', e: this.genExpr(rng, 1) }, { k: 'v', e: this.genExpr(rng, 1) }]))
     if (r < 17) return M.ev(X.cond(this.genExpr(rng, 1), X.id('list'), X.id('arr')))
     if (r < 18 && local.length) return M.ev(X.mem(X.id(local[0]), 'sub'))
+    // (arbitrary numbers as lists are only generated where a reference pre-pass can reject huge counts)
+    if (this.safeLists) return M.ev(X.id('list'))
     if (r < 19) return M.ev(X.id(rng.pick(this.dataNames)))
     return M.ev(X.id('n'))
   }
@@ -103,16 +106,16 @@ export function genFileSet(rng, opts = {}) {
   const defNames = Array.from({ length: nDefs }, (_, i) => ['t1', 'item-tpl', 'T3'][i])
   const includes = []
   if (withInclude) {
-    const incCtx = new GenCtx({ moduleNames: [], maxDepth: 1, allowSlot: false, families: opts.families, noCall: opts.noCall })
+    const incCtx = new GenCtx({ moduleNames: [], maxDepth: 1, allowSlot: false, families: opts.families, noCall: opts.noCall, safeLists: opts.safeLists })
     files.inc = { path: 'inc', children: M.genNodes(rng, incCtx, 1, 3), imports: [], wxs: [], defs: [] }
     includes.push(rng.pick(['inc', './inc', 'inc.wxml', '/inc']))
   }
   const defs = []
   for (const name of defNames) {
-    const dctx = new GenCtx({ dataNames: ['a', 'b', 'c'], moduleNames, maxDepth: 1, defNames: defs.map((d) => d.name), allowSlot: false, families: (opts.families || M.FAMILIES).filter((f) => f !== 'change'), noCall: opts.noCall, exprCtx: { ctors: null } })
+    const dctx = new GenCtx({ dataNames: ['a', 'b', 'c'], moduleNames, maxDepth: 1, defNames: defs.map((d) => d.name), allowSlot: false, families: (opts.families || M.FAMILIES).filter((f) => f !== 'change'), noCall: opts.noCall, exprCtx: { ctors: null }, safeLists: opts.safeLists })
     defs.push({ name, children: M.genNodes(rng, dctx, 1, 3) })
   }
-  const ctx = new GenCtx({ moduleNames, maxDepth: opts.maxDepth ?? 3, defNames, includes, allowSlot: opts.allowSlot ?? true, families: opts.families, tags: opts.tags, noCall: opts.noCall, exprCtx: opts.exprCtx })
+  const ctx = new GenCtx({ moduleNames, maxDepth: opts.maxDepth ?? 3, defNames, includes, allowSlot: opts.allowSlot ?? true, families: opts.families, tags: opts.tags, noCall: opts.noCall, exprCtx: opts.exprCtx, safeLists: opts.safeLists })
   const children = M.genNodes(rng, ctx, ctx.maxDepth, opts.maxTop ?? 4)
   files[mainPath] = { path: mainPath, imports: [], wxs: withModule ? [{ module: 'm', code: MODULE_CODE('m') }] : [], defs, children }
   return { files, scripts, main: mainPath }
